@@ -2,7 +2,7 @@
 use crate::IoBuffer;
 use crate::RecvError;
 use core::{marker::PhantomData, mem::forget, ops::Deref};
-use flatty::{error::ErrorKind, Flat};
+use flatty::{error::ErrorKind, utils::floor_mul, Flat};
 #[cfg(feature = "io")]
 use std::io::Read;
 
@@ -43,7 +43,9 @@ impl<M: Flat + ?Sized, P: Read> IoReceiver<M, P> {
 
 impl<M: Flat + ?Sized, B: ReadBuffer> Receiver<M, B> {
     pub fn recv(&mut self) -> Result<RecvGuard<'_, M, B>, RecvError<B::Error>> {
-        while let Err(e) = M::validate(&self.buffer) {
+        // Only whole alignment units can belong to a message (a mapped value never covers a
+        // trailing partial unit), so do not let validation see a partially received one.
+        while let Err(e) = M::validate(&self.buffer[..floor_mul(self.buffer.len(), M::ALIGN)]) {
             match e.kind {
                 ErrorKind::InsufficientSize => (),
                 _ => return Err(RecvError::Parse(e)),
